@@ -862,27 +862,26 @@ M("c19-pop-instead-of-popleft", "C19", "R4.release-wakes-head", "threading.py",
   "            self._waiters.popleft()", "            self._waiters.pop()")
 M("c19-wake-tail", "C19", "R4.release-wakes-head", "threading.py",
   "                self._waiters[0].set()", "                self._waiters[-1].set()")
-M("c19-append-after-wait", "C19", "R2.enqueue-before-wait", "threading.py",
-  """            event = Event()
-            self._waiters.append(event)
+M2("c19-append-after-wait", "C19", "R2.enqueue-before-wait", [
+    {"file": "threading.py", "old": """                event = Event()
+                self._waiters.append(event)
 
-            if len(self._waiters) == 1:
-                # first waiter, nothing else in queue so no need to wait
-                event.set()
+                if len(self._waiters) == 1:
+                    # first waiter, nothing else in queue so no need to wait
+                    event.set()
+""", "new": """                event = Event()
 
-        # block until it's our turn to proceed
+                if len(self._waiters) == 0:
+                    # first waiter, nothing else in queue so no need to wait
+                    event.set()
+"""},
+    {"file": "threading.py", "old": """        # block until it's our turn to proceed
         event.wait()
-""", """            event = Event()
-
-            if len(self._waiters) == 0:
-                # first waiter, nothing else in queue so no need to wait
-                event.set()
-
-        # block until it's our turn to proceed
+""", "new": """        # block until it's our turn to proceed
         event.wait()
         with self._lock:
             self._waiters.append(event)
-""")
+"""}])
 M("c19-no-wake-all-on-exception", "C19", "R4.exceptional-exit-breaks-and-wakes-all", "threading.py",
   "                for waiter in self._waiters:\n                    waiter.set()\n", "")
 M("c19-counter-returns-outside-lock", "C19", "R5.counter-read-modify-return-under-lock", "threading.py",
@@ -917,14 +916,14 @@ M("c19-break-flag-after-wake", "C19", "R4.exceptional-exit-breaks-and-wakes-all"
 M("c19-release-ignores-broken", "C19", "R4.release-wakes-head", "threading.py",
   "            if self._waiters and not self._is_broken:", "            if self._waiters:")
 M("c19-benign-len-zero-before", "C19", "", "threading.py",
-  """            event = Event()
-            self._waiters.append(event)
+  """                event = Event()
+                self._waiters.append(event)
 
-            if len(self._waiters) == 1:""", """            event = Event()
-            self._waiters.append(event)
-            n_waiting = len(self._waiters)
+                if len(self._waiters) == 1:""", """                event = Event()
+                self._waiters.append(event)
+                n_waiting = len(self._waiters)
 
-            if n_waiting == 1:""", expect="silent")
+                if n_waiting == 1:""", expect="silent")
 
 # ----------------------------------------------------------------------------- C20
 M("c20-context-details-partial", "C20", "R1.field-is-written", "lambda_service.py",
